@@ -355,6 +355,11 @@ func (dht *IpfsDHT) getValues(ctx context.Context, key string, stopQuery chan st
 					Val:  val,
 					From: p,
 				}:
+				case <-stopQuery:
+					// The search has already collected enough values and no
+					// longer reads valCh; without this case the sender (and the
+					// lookup waiting for it) would block until the caller's
+					// context is cancelled, possibly forever.
 				case <-ctx.Done():
 					return nil, ctx.Err()
 				}
